@@ -12,6 +12,7 @@ Line protocol (one op per line):
                | e (#else) | x (#endif) | r<num> (region) | m<hex> (#define)
      -> "C <cfg>,<cfg>,... | L <r.r.r>/<r.r>/..."    configurations in set order; per configuration the
         regions that are live in it ("-" = none); "L ?" when the list is not a well nested tree
+  safe <fe><fn> <dir>*                            the decidable class of Model/Configs.lean   -> "S 0|1|?"
   sel <force> <maxopt> <maxproj> <ud> <cfg>,<cfg>,...   selection loop of checkInternal
      -> "M <maxConfigs> | A <currentConfig>,..."
 -/
@@ -55,6 +56,14 @@ def step (line : String) : String :=
       let cs := getConfigsWith flags inp ds
       s!"C {cfgsStr cs} | L {liveStr inp cs ds}"
     | _, _, _, _ => "bad-op"
+  | "safe" :: fl :: dirs =>
+    match dirs.mapM parseDir with
+    | some ds =>
+      let flags : Flags := { fixElse := fl.toList.head? == some '1', fixNotDef := fl.toList.getLast? == some '1' }
+      match parseTree ds with
+      | some t => s!"S {boolStr (safe flags t)}"
+      | none => "S ?"
+    | none => "bad-op"
   | ["sel", force, mo, mp, ud, cfgs] =>
     match mo.toNat?, mp.toNat?, fromHex ud, (cfgs.splitOn ",").mapM fromHex with
     | some mo, some mp, some ud, some cs =>
